@@ -1,0 +1,201 @@
+//go:build verif
+
+// Machine-checked contracts for package svg (property C19). Comment-only file read by /verif/bin/evyvc.
+
+package svg
+
+// ---- coordinate transform: scaled by ten, y axis flipped ----
+
+//@ func (rt *GraphicsPlatform) scale(s float64) (r float64)
+//@   props C19
+//@   ensures[C19 times-ten] same(r, 10.0 * s)
+//@   modifies nothing
+
+//@ func (rt *GraphicsPlatform) transformX(x float64) (r float64)
+//@   props C19
+//@   ensures[C19 times-ten] same(r, 10.0 * x)
+//@   modifies nothing
+
+//@ func (rt *GraphicsPlatform) transformY(y float64) (r float64)
+//@   props C19
+//@   ensures[C19 flipped] same(r, 1000.0 - 10.0 * y)
+//@   modifies nothing
+
+// ---- every drawing command appends exactly one shape with the geometry of the command ----
+
+//@ func (rt *GraphicsPlatform) Move(x float64, y float64)
+//@   props C19
+//@   ensures[C19 cursor] same(rt.x, 10.0 * x) && same(rt.y, 1000.0 - 10.0 * y)
+//@   modifies rt.x, rt.y
+
+//@ func (rt *GraphicsPlatform) Line(x float64, y float64)
+//@   props C19
+//@   let n = old(len(rt.elements))
+//@   let el = rt.elements[n]
+//@   ensures[C19 one-shape] len(rt.elements) == n + 1 && is(el, *Line) && fresh(el)
+//@   ensures[C19 geometry] same(el.(*Line).X1, old(rt.x)) && same(el.(*Line).Y1, old(rt.y)) && same(el.(*Line).X2, 10.0 * x) && same(el.(*Line).Y2, 1000.0 - 10.0 * y)
+//@   ensures[C19 cursor] same(rt.x, 10.0 * x) && same(rt.y, 1000.0 - 10.0 * y)
+//@   ensures[C19 earlier-kept] forall(i, int, 0 <= i && i < n ==> rt.elements[i] == old(rt.elements[i]))
+//@   modifies rt.x, rt.y, rt.elements, class elem:any
+
+//@ func (rt *GraphicsPlatform) Circle(radius float64)
+//@   props C19
+//@   let n = old(len(rt.elements))
+//@   let el = rt.elements[n]
+//@   ensures[C19 one-shape] len(rt.elements) == n + 1 && is(el, *Circle) && fresh(el)
+//@   ensures[C19 geometry] same(el.(*Circle).CX, rt.x) && same(el.(*Circle).CY, rt.y) && same(el.(*Circle).R, 10.0 * radius)
+//@   ensures[C19 earlier-kept] forall(i, int, 0 <= i && i < n ==> rt.elements[i] == old(rt.elements[i]))
+//@   modifies rt.elements, class elem:any
+
+//@ func (rt *GraphicsPlatform) Ellipse(x float64, y float64, radiusX float64, radiusY float64, rotation float64, _ float64, _ float64)
+//@   props C19
+//@   let n = old(len(rt.elements))
+//@   let el = rt.elements[n]
+//@   ensures[C19 one-shape] len(rt.elements) == n + 1 && is(el, *Ellipse) && fresh(el)
+//@   ensures[C19 centre-x] same(el.(*Ellipse).CX, 10.0 * x)
+//@   ensures[C19 centre-y] same(el.(*Ellipse).CY, 1000.0 - 10.0 * y)
+//@   ensures[C19 radii] same(el.(*Ellipse).RX, 10.0 * radiusX) && same(el.(*Ellipse).RY, 10.0 * radiusY)
+//@   ensures[C19 earlier-kept] forall(i, int, 0 <= i && i < n ==> rt.elements[i] == old(rt.elements[i]))
+//@   modifies rt.elements, class elem:any
+
+//@ func (rt *GraphicsPlatform) Text(str string)
+//@   props C19
+//@   let n = old(len(rt.elements))
+//@   let el = rt.elements[n]
+//@   ensures[C19 one-shape] len(rt.elements) == n + 1 && is(el, *Text) && fresh(el)
+//@   ensures[C19 geometry] same(el.(*Text).X, rt.x) && same(el.(*Text).Y, rt.y) && el.(*Text).Value == str
+//@   ensures[C19 earlier-kept] forall(i, int, 0 <= i && i < n ==> rt.elements[i] == old(rt.elements[i]))
+//@   modifies rt.elements, class elem:any
+
+//@ func (rt *GraphicsPlatform) Rect(width float64, height float64)
+//@   props C19
+//@   let n = old(len(rt.elements))
+//@   let el = rt.elements[n]
+//@   ensures[C19 one-shape] len(rt.elements) == n + 1 && is(el, *Rect) && fresh(el)
+//@   ensures[C19 cursor] same(rt.x, old(rt.x) + 10.0 * width) && same(rt.y, old(rt.y) + -(10.0 * height))
+//@   ensures[C19 corner] !isNaN(old(rt.x)) && !isNaN(rt.x) && !isNaN(old(rt.y)) && !isNaN(rt.y) ==> el.(*Rect).X <= old(rt.x) && el.(*Rect).X <= rt.x && (el.(*Rect).X == old(rt.x) || el.(*Rect).X == rt.x) && el.(*Rect).Y <= old(rt.y) && el.(*Rect).Y <= rt.y && (el.(*Rect).Y == old(rt.y) || el.(*Rect).Y == rt.y)
+//@   ensures[C19 earlier-kept] forall(i, int, 0 <= i && i < n ==> rt.elements[i] == old(rt.elements[i]))
+//@   modifies rt.x, rt.y, rt.elements, class elem:any
+
+//@ func (rt *GraphicsPlatform) Clear(color string)
+//@   props C19
+//@   let n = old(len(rt.elements))
+//@   let el = rt.elements[n]
+//@   let c = ite(color == "", "white", color)
+//@   ensures[C19 one-shape] len(rt.elements) == n + 1 && is(el, *Rect) && fresh(el)
+//@   ensures[C19 whole-canvas] el.(*Rect).X == 0.0 && el.(*Rect).Y == 0.0 && el.(*Rect).Width == "100%" && el.(*Rect).Height == "100%"
+//@   ensures[C19 own-colour] el.(*Rect).Attr.Fill == c && el.(*Rect).Attr.Stroke == c
+//@   ensures[C19 earlier-kept] forall(i, int, 0 <= i && i < n ==> rt.elements[i] == old(rt.elements[i]))
+//@   modifies rt.elements, class elem:any
+
+// ---- style commands flush the pending shapes first and then change exactly their attribute ----
+
+//@ func (rt *GraphicsPlatform) Color(color string)
+//@   props C19
+//@   ensures[C19 flush-first] ncalls("(*GraphicsPlatform).Push") == 1
+//@   ensures[C19 pen] rt.attr.Stroke == color && rt.attr.Fill == color
+//@   modifies rt.attr.Stroke, rt.attr.Fill, rt.SVG.Elements, rt.elements, class elem:any, class svg.Line.Attr, class svg.Circle.Attr, class svg.Rect.Attr, class svg.Polyline.Attr, class svg.Ellipse.Attr, class svg.Text.Attr, class svg.Text.TextAttr, class svg.Group.Attr, class svg.Group.TextAttr
+
+//@ func (rt *GraphicsPlatform) Stroke(str string)
+//@   props C19
+//@   ensures[C19 flush-first] ncalls("(*GraphicsPlatform).Push") == 1
+//@   ensures[C19 pen] rt.attr.Stroke == str
+//@   modifies rt.attr.Stroke, rt.SVG.Elements, rt.elements, class elem:any, class svg.Line.Attr, class svg.Circle.Attr, class svg.Rect.Attr, class svg.Polyline.Attr, class svg.Ellipse.Attr, class svg.Text.Attr, class svg.Text.TextAttr, class svg.Group.Attr, class svg.Group.TextAttr
+
+//@ func (rt *GraphicsPlatform) Fill(str string)
+//@   props C19
+//@   ensures[C19 flush-first] ncalls("(*GraphicsPlatform).Push") == 1
+//@   ensures[C19 pen] rt.attr.Fill == str
+//@   modifies rt.attr.Fill, rt.SVG.Elements, rt.elements, class elem:any, class svg.Line.Attr, class svg.Circle.Attr, class svg.Rect.Attr, class svg.Polyline.Attr, class svg.Ellipse.Attr, class svg.Text.Attr, class svg.Text.TextAttr, class svg.Group.Attr, class svg.Group.TextAttr
+
+//@ func (rt *GraphicsPlatform) Linecap(str string)
+//@   props C19
+//@   ensures[C19 flush-first] ncalls("(*GraphicsPlatform).Push") == 1
+//@   ensures[C19 pen] rt.attr.StrokeLinecap == str
+//@   modifies rt.attr.StrokeLinecap, rt.SVG.Elements, rt.elements, class elem:any, class svg.Line.Attr, class svg.Circle.Attr, class svg.Rect.Attr, class svg.Polyline.Attr, class svg.Ellipse.Attr, class svg.Text.Attr, class svg.Text.TextAttr, class svg.Group.Attr, class svg.Group.TextAttr
+
+//@ func (rt *GraphicsPlatform) Width(w float64)
+//@   props C19
+//@   ensures[C19 flush-first] ncalls("(*GraphicsPlatform).Push") == 1
+//@   ensures[C19 pen] rt.attr.StrokeWidth != nil && fresh(rt.attr.StrokeWidth) && same(*rt.attr.StrokeWidth, 10.0 * w)
+//@   modifies rt.attr.StrokeWidth, rt.SVG.Elements, rt.elements, class elem:any, class svg.Line.Attr, class svg.Circle.Attr, class svg.Rect.Attr, class svg.Polyline.Attr, class svg.Ellipse.Attr, class svg.Text.Attr, class svg.Text.TextAttr, class svg.Group.Attr, class svg.Group.TextAttr
+
+// ---- Push: the pending shapes move to the document, grouped when there are several ----
+
+// Interface calls on shapes are resolved by case distinction over the shape types of this package.
+//@ iface (s attrSetter) setAttr(a Attr)
+//@   opt dispatch
+//@ iface (s textAttrSetter) setTextAttr(ta TextAttr)
+//@   opt dispatch
+
+// The pending shapes and the document's shapes live in different arrays.
+//@ typeinv GraphicsPlatform: base(self.elements) == 0 || base(self.elements) != base(self.SVG.Elements)
+// Every pending element is one of the shape types of this package.
+//@ typeinv GraphicsPlatform: forall(i, int, 0 <= i && i < len(self.elements) ==> (is(self.elements[i], *Line) || is(self.elements[i], *Circle) || is(self.elements[i], *Rect) || is(self.elements[i], *Polyline) || is(self.elements[i], *Ellipse) || is(self.elements[i], *Text) || is(self.elements[i], *Group)) && ref(self.elements[i]) != 0)
+
+
+//@ func (rt *GraphicsPlatform) Push()
+//@   props C19
+//@   let n = old(len(rt.elements))
+//@   let m = old(len(rt.SVG.Elements))
+//@   let top = rt.SVG.Elements[m]
+//@   ensures[C19 nothing-pending] n == 0 ==> len(rt.SVG.Elements) == m
+//@   ensures[C19 flushed] n > 0 ==> len(rt.SVG.Elements) == m + 1 && len(rt.elements) == 0
+//@   ensures[C19 earlier-kept] forall(i, int, 0 <= i && i < m ==> rt.SVG.Elements[i] == old(rt.SVG.Elements[i]))
+//@   ensures[C19 single] n == 1 ==> top == old(rt.elements[0])
+//@   ensures[C19 group] n > 1 ==> is(top, *Group) && fresh(top) && len(top.(*Group).Elements) == n && forall(i, int, 0 <= i && i < n ==> top.(*Group).Elements[i] == old(rt.elements[i]))
+//@   ensures[C19 group-style] n > 1 ==> top.(*Group).Attr.Fill == ite(rt.attr.Fill == "black", "", rt.attr.Fill) && top.(*Group).Attr.Stroke == ite(rt.attr.Stroke == "black", "", rt.attr.Stroke) && top.(*Group).Attr.StrokeLinecap == ite(rt.attr.StrokeLinecap == "round", "", rt.attr.StrokeLinecap) && top.(*Group).Attr.StrokeDashArray == rt.attr.StrokeDashArray
+//@   ensures[C19 own-colour-kept] n == 1 && is(old(rt.elements[0]), *Rect) && old(rt.elements[0].(*Rect).Attr.Fill) != "" ==> top.(*Rect).Attr.Fill == old(rt.elements[0].(*Rect).Attr.Fill)
+//@   modifies rt.SVG.Elements, rt.elements, class elem:any, class svg.Line.Attr, class svg.Circle.Attr, class svg.Rect.Attr, class svg.Polyline.Attr, class svg.Ellipse.Attr, class svg.Text.Attr, class svg.Text.TextAttr, class svg.Group.Attr, class svg.Group.TextAttr
+
+// ---- pen resolution: only attributes that differ from the document defaults are written ----
+
+// The package-level defaults are initialised once and never reassigned (assumption; nothing in the package writes them).
+//@ global defaultAttr.Fill == "black" && defaultAttr.Stroke == "black" && defaultAttr.StrokeLinecap == "round" && defaultAttr.StrokeDashArray == "" && defaultAttr.StrokeWidth != nil && *defaultAttr.StrokeWidth == 1.0
+//@ global defaultTextAttr.TextAnchor == "start" && defaultTextAttr.Baseline == "alphabetic" && defaultTextAttr.FontStyle == "normal" && defaultTextAttr.LetterSpacing == "0" && defaultTextAttr.FontSize != nil && defaultTextAttr.FontWeight != nil && *defaultTextAttr.FontSize == 60.0 && *defaultTextAttr.FontWeight == 400.0
+
+//@ func (rt *GraphicsPlatform) nonDefaultAttr() (a Attr)
+//@   props C19
+//@   opt merge
+//@   ensures[C19 fill] a.Fill == ite(rt.attr.Fill == "black", "", rt.attr.Fill)
+//@   ensures[C19 stroke] a.Stroke == ite(rt.attr.Stroke == "black", "", rt.attr.Stroke)
+//@   ensures[C19 linecap] a.StrokeLinecap == ite(rt.attr.StrokeLinecap == "round", "", rt.attr.StrokeLinecap)
+//@   ensures[C19 dash] a.StrokeDashArray == rt.attr.StrokeDashArray
+//@   ensures[C19 width] a.StrokeWidth == ite(rt.attr.StrokeWidth != nil && *rt.attr.StrokeWidth == 1.0, nil, rt.attr.StrokeWidth)
+//@   modifies nothing
+
+//@ func (rt *GraphicsPlatform) nonDefaultTextAttr() (a TextAttr)
+//@   props C19
+//@   opt merge
+//@   ensures[C19 anchor] a.TextAnchor == ite(rt.textAttr.TextAnchor == "start", "", rt.textAttr.TextAnchor)
+//@   ensures[C19 baseline] a.Baseline == ite(rt.textAttr.Baseline == "alphabetic", "", rt.textAttr.Baseline)
+//@   ensures[C19 style] a.FontStyle == ite(rt.textAttr.FontStyle == "normal", "", rt.textAttr.FontStyle)
+//@   ensures[C19 family] a.FontFamily == ite(rt.textAttr.FontFamily == defaultTextAttr.FontFamily, "", rt.textAttr.FontFamily)
+//@   ensures[C19 spacing] a.LetterSpacing == ite(rt.textAttr.LetterSpacing == "0", "", rt.textAttr.LetterSpacing)
+//@   ensures[C19 size] a.FontSize == ite(rt.textAttr.FontSize != nil && *rt.textAttr.FontSize == 60.0, nil, rt.textAttr.FontSize)
+//@   ensures[C19 weight] a.FontWeight == ite(rt.textAttr.FontWeight != nil && *rt.textAttr.FontWeight == 400.0, nil, rt.textAttr.FontWeight)
+//@   modifies nothing
+
+// ---- font: each documented key maps to its SVG attribute ----
+
+//@ func (rt *GraphicsPlatform) Font(props map[string]any)
+//@   props C19
+//@   opt merge
+//@   let has_family = has(props, "family") && is(props["family"], string)
+//@   let has_style = has(props, "style") && is(props["style"], string)
+//@   let has_size = has(props, "size") && is(props["size"], float64)
+//@   let has_weight = has(props, "weight") && is(props["weight"], float64)
+//@   let has_baseline = has(props, "baseline") && is(props["baseline"], string)
+//@   let has_align = has(props, "align") && is(props["align"], string)
+//@   let bl = props["baseline"].(string)
+//@   let al = props["align"].(string)
+//@   ensures[C19 flush-first] ncalls("(*GraphicsPlatform).Push") == 1
+//@   ensures[C19 family] has_family ==> rt.textAttr.FontFamily == props["family"].(string)
+//@   ensures[C19 style] has_style ==> rt.textAttr.FontStyle == props["style"].(string)
+//@   ensures[C19 size] has_size ==> rt.textAttr.FontSize != nil && same(*rt.textAttr.FontSize, 10.0 * props["size"].(float64))
+//@   ensures[C19 weight] has_weight ==> rt.textAttr.FontWeight != nil && same(*rt.textAttr.FontWeight, props["weight"].(float64))
+//@   ensures[C19 baseline] has_baseline ==> (bl == "top" ==> rt.textAttr.Baseline == "hanging") && (bl == "middle" ==> rt.textAttr.Baseline == "middle") && (bl == "bottom" ==> rt.textAttr.Baseline == "ideographic") && (bl == "alphabetic" ==> rt.textAttr.Baseline == "alphabetic")
+//@   ensures[C19 align] has_align ==> (al == "left" ==> rt.textAttr.TextAnchor == "start") && (al == "right" ==> rt.textAttr.TextAnchor == "end") && (al == "center" ==> rt.textAttr.TextAnchor == "middle")
+//@   ensures[C19 absent-unchanged] (!has_family ==> rt.textAttr.FontFamily == old(rt.textAttr.FontFamily)) && (!has_style ==> rt.textAttr.FontStyle == old(rt.textAttr.FontStyle)) && (!has_baseline ==> rt.textAttr.Baseline == old(rt.textAttr.Baseline)) && (!has_align ==> rt.textAttr.TextAnchor == old(rt.textAttr.TextAnchor))
+//@   ensures[C19 pen-colour-kept] rt.attr.Fill == old(rt.attr.Fill) && rt.attr.Stroke == old(rt.attr.Stroke)
+//@   modifies rt.textAttr.FontFamily, rt.textAttr.FontStyle, rt.textAttr.FontSize, rt.textAttr.FontWeight, rt.textAttr.Baseline, rt.textAttr.TextAnchor, rt.textAttr.LetterSpacing, rt.SVG.Elements, rt.elements, class elem:any, class svg.Line.Attr, class svg.Circle.Attr, class svg.Rect.Attr, class svg.Polyline.Attr, class svg.Ellipse.Attr, class svg.Text.Attr, class svg.Text.TextAttr, class svg.Group.Attr, class svg.Group.TextAttr
